@@ -42,6 +42,9 @@ Bounds: <= 2 occurrences (quick) / <= 3 (thorough, core alphabet) replayed; argu
 CmdLine.tla (DefParts, PathParts, KnownCPU ...); one key file level (nesting is an error by the manual); no `/`
 switches (SLASHARGS is a DOS build option), no wildcards (the shell expands them on Unix), no interactive prompt
 (stdin is empty), plist without parameters (it prompts) not modelled.
+The key files of (G) are written in ONE physical shape (every line + LF); the shape of the file itself (lines, line ends, last
+line without line end, blanks, empty / remark lines, ^Z, 255 characters) is the extension checks/ext_keyfile.py +
+spec/KeyFile*.tla, whose cases join the replay, the judgement and the klass comparison of run() below.
 Mutations of the real code tried (scratch copies, all pass the 201 golden tests; `VERIF_REPO=... ./check C17` exits
 1 for each): cmdarg.c ProcessCMD scanning argv before the environment variable; DecodeLine not skipping the consumed
 argument (z++ dropped); as.c ParamError leaving with exit(2); ProcessParam not blanking a look-ahead that starts with
